@@ -17,10 +17,11 @@ open(os.path.join(d, "patch.diff"), "w").write(patch)
 sh("git -C /repo reset -q; git -C /repo checkout -- .")
 shutil.copy(demo, os.path.join(d, "demo.rs"))
 head = sh("git -C /repo log --format=%h -1").stdout.strip()
-logf = "/verif/.work/seedlogs/%s.log" % sid.split("-")[0]
+# SEEDLOG=<file> MUTANT=<k> override where the confirmation line is read from (later seeding rounds)
+logf = os.environ.get("SEEDLOG", "/verif/.work/seedlogs/%s.log" % sid.split("-")[0])
 ver = ""
 if os.path.exists(logf):
-    k = sid.split("-")[1]
+    k = os.environ.get("MUTANT", sid.split("-")[1])
     for l in open(logf):
         if l.startswith("mutant%s:" % k): ver = l.strip()
 meta = {
